@@ -1,0 +1,28 @@
+//go:build verif
+
+package ipfsadd
+
+// Contracts for the govc verifier (/verif). Comment-only.
+
+// ---- "the root ... equals what the standard IPFS importer computes for the same parameters" (CID version, hash) ----
+// every node this adder builds by hand gets the CID builder derived from the add parameters before it is stored;
+// lastBuilderNode / lastBuilder: the node SetCidBuilder was last called on, and with what
+//@ ghost var lastBuilderNode *dag.ProtoNode
+//@ ghost var lastBuilder cid.Builder
+//@ extern dag.ProtoNode.SetCidBuilder(builder)
+//@   records lastBuilderNode = self
+//@   records lastBuilder = builder
+//@   modifies nothing
+//@ extern ipld.NodeAdder.Add(ctx, nd)
+//@   modifies nothing
+
+//@ func (adder *Adder) addNode
+//@   opts trusted
+//@   modifies nothing
+
+// a symbolic link becomes one UnixFS node, built with the requested CID builder, stored, then patched into the tree
+//@ func (adder *Adder) addSymlink
+//@   property C13
+//@   requires adder != nil
+//@   at_call ipld.NodeAdder.Add assert [symlink-node-uses-the-requested-cid-builder] nd == as(dagnode, "ipld.Node") && lastBuilderNode == dagnode && lastBuilder == adder.CidBuilder
+//@   modifies *
